@@ -81,6 +81,27 @@ package offline_signature
 //@   ensures @C14 (err == nil) == (OffInv(o) && o.expires != 0)
 //@   modifies nothing
 
+// C05: success means the destination's key signed expires || sigtype || transient key.
+//@ spec func OffSignedData(o *OfflineSignature) []byte { return cat(be32(o.expires), be16(o.sigtype), o.transientPublicKey) }
+
+//@ spec func OffKey(o *OfflineSignature) []byte { return o.transientPublicKey }
+//@ spec func OffSig(o *OfflineSignature) []byte { return o.signature }
+
+//@ contract (o *OfflineSignature) SignedData() (b []byte)
+//@   requires o != nil
+//@   ensures fresh(b)
+//@   ensures @C05 @C06 seqeq(b, OffSignedData(o))
+//@   modifies nothing
+
+//@ contract (o *OfflineSignature) VerifySignature(destinationPublicKey []byte) (ok bool, err error)
+//@   ensures @C05 ok ==> err == nil && o != nil && sigvalid(destinationPublicKey, OffSignedData(o), o.signature)
+//@   modifies nothing
+
+// must-fail canary: nothing was verified, so nothing is known to be valid
+//@ lemma T_mustfail_sig(o *OfflineSignature, k []byte) {
+//@   assert(sigvalid(k, OffSignedData(o), o.signature))
+//@ }
+
 //@ lemma C01_ReadOfflineSignature(data []byte, dst uint16) {
 //@   o, rem, err := ReadOfflineSignature(data, dst)
 //@   if err == nil {
